@@ -218,6 +218,16 @@ def validate_and_collect(chk, pid, jobs_by_algs):
                 chk.add_violation(clause, sig, {'trace': tid, 'line': line, 'event': ev}, {'job': job, 'line': line, 'algs': algs})
 
 
+def timer_path(chk, pid, thorough, rnd):
+    '''C04 on the timer path (schedule.periodics / defer / complete): the firing histories of spec/MomentFire.tla are
+    replayed on the real code (half of them with units that store nothing) and clause C04.IdleEmpty of
+    MomentFire_Trace.tla is evaluated: a node without pending or executing work is not in the work queue'''
+    from checks import moment
+
+    domain = moment.gen_domain(chk)
+    moment.replay_b(chk, pid, rnd, domain[0], domain[2], None if thorough else 700, 3 if thorough else 2)
+
+
 def data_plane(chk, pid, thorough, seed, rnd):
     '''C02 end-state part: spec/Sched_Data.tla (MC) + real scheduler with the abstract pure-function worker'''
     c = dict(consts(ALG3, 'Programs3Alg', 10), MaxBump='2' if thorough else '1')
@@ -410,6 +420,8 @@ def run(pid, tier, seed, replay=None):
     validate_and_collect(chk, pid, [(ALG3, jobs3), (ALG4, jobs4)])
     if pid == 'C02':
         data_plane(chk, pid, thorough, seed, rnd)
+    if pid == 'C04':
+        timer_path(chk, pid, thorough, rnd)
     chk.counters.update(
         transitions_of_gen_instance=total_transitions,
         transitions_replayed=len(scheds),
